@@ -74,22 +74,71 @@ func Select(site int32, chans ...any) int {
 	t.siteID = site
 	t.site = ""
 	t.real = true
+	// The same channel may appear in several cases (e.g. a caller passing a channel's own
+	// context): a real select would pick among them at random when it fires. Block on the
+	// distinct channels only and choose among the duplicates with the run's PRNG.
+	uniq := chans
+	dup := false
+	for a := 1; a < len(chans) && !dup; a++ {
+		for b := 0; b < a; b++ {
+			if sameChan(chans[a], chans[b]) {
+				dup = true
+				break
+			}
+		}
+	}
+	if dup {
+		uniq = make([]any, 0, len(chans))
+		for a := range chans {
+			seen := false
+			for _, u := range uniq {
+				if sameChan(chans[a], u) {
+					seen = true
+					break
+				}
+			}
+			if !seen {
+				uniq = append(uniq, chans[a])
+			}
+		}
+	}
 	var i int
-	if c, ok := structChans(chans); ok && len(c) <= 3 {
+	if c, ok := structChans(uniq); ok && len(c) <= 3 {
 		i = selectStruct(c, s.shutdownCh)
 	} else {
-		cases := make([]reflect.SelectCase, 0, len(chans)+1)
-		for _, ch := range chans {
+		cases := make([]reflect.SelectCase, 0, len(uniq)+1)
+		for _, ch := range uniq {
 			cases = append(cases, reflect.SelectCase{Dir: reflect.SelectRecv, Chan: reflect.ValueOf(ch)})
 		}
 		cases = append(cases, reflect.SelectCase{Dir: reflect.SelectRecv, Chan: reflect.ValueOf(s.shutdownCh)})
 		i, _, _ = reflect.Select(cases)
 	}
 	s.unblock(t)
-	if i == len(chans) {
+	if i == len(uniq) {
 		runtime.Goexit()
 	}
-	return i
+	if !dup {
+		return i
+	}
+	var cand []int
+	for a := range chans {
+		if sameChan(chans[a], uniq[i]) {
+			cand = append(cand, a)
+		}
+	}
+	return cand[s.rng[StreamSched].IntN(len(cand))]
+}
+
+// sameChan reports whether two select operands are the same (non-nil) channel.
+func sameChan(a, b any) bool {
+	va, vb := reflect.ValueOf(a), reflect.ValueOf(b)
+	if !va.IsValid() || !vb.IsValid() || va.Kind() != reflect.Chan || vb.Kind() != reflect.Chan {
+		return false
+	}
+	if va.IsNil() || vb.IsNil() {
+		return false
+	}
+	return va.Pointer() == vb.Pointer()
 }
 
 func structChans(chans []any) ([]<-chan struct{}, bool) {
